@@ -25,12 +25,27 @@ RULE = ("forward: stretched/random/uniform grid 5..9 x 4..7 x 5..9, laterally "
         "with the checker's own empymod.bipole call (centre, angles, moment "
         "= strength*length, layers passed top-down).  Non-trivial = at least "
         "two distinct layers, at least one compared entry with a response "
-        "above underflow; distinct by (grid shape, seeds).  extract: "
-        "Model.extract_1d on laterally varying models of all four anisotropy "
-        "cases; ellipse: maps.ellipse_indices on regular and irregular "
-        "coordinates; gradient: layer sums of Simulation.gradient in layered "
-        "mode against central differences of the misfit of fresh "
-        "simulations.")
+        "above underflow; distinct by (grid shape, seeds).  Added in the "
+        "audit round: grids with 1-2 cells in x/y (one case in seven a single "
+        "column nx=ny=1) and 1-3 layers (full space, one interface); missing "
+        "observations written as nan+nanj / nan+xj / x+nanj / inf / x-infj; "
+        "the simulation reaches layered mode fresh, through the `layered` "
+        "setter of a 3D simulation, through from_dict(to_dict()), or is "
+        "computed twice; 'method' may be left to its default; after "
+        "construction Simulation.layered_opts is compared with the given "
+        "options and the documented defaults (cylinder, factor 1.2, minor "
+        "0.8, radius = skin depth of the lowest frequency in the lowest "
+        "layer).  extract: Model.extract_1d on laterally varying models of "
+        "all four anisotropy cases: imat = area weights of the checker's own "
+        "evaluation of the documented ellipse (cylinder) or its bounding box "
+        "(prism), extracted values = an imat-weighted mean of the selected "
+        "cells, width of a midpoint model = selected cell; ellipse: "
+        "maps.ellipse_indices on regular and irregular coordinates equals "
+        "the documented ellipse (a = max(f c, c+r), b = max(m a, r[, "
+        "sqrt(a^2-c^2)])) at every coordinate outside a 1e-9 rounding band "
+        "around its boundary; gradient: layer sums of Simulation.gradient in "
+        "layered mode against central differences of the misfit of fresh "
+        "simulations (also nz = 2, 3, single columns, all-NaN data).")
 ASSUMPTIONS = [
     "empymod.bipole (the 1D reference modeller) is the trusted base; both "
     "sides call the same empymod, the checker with arguments derived from the "
@@ -49,13 +64,32 @@ ASSUMPTIONS = [
     "nulls), or <= 20 x the measured numerical noise of the reference (its "
     "change under 1e-13 relative perturbations of the layers; strongly "
     "attenuated responses are cancelling filter sums)",
+    "entries without a finite observation are NaN on this tree; the "
+    "statement does not demand that, so computed values there are only "
+    "recorded (class entries_without_observation_computed), while a "
+    "non-finite value where the observation is finite is a violation",
+    "ellipse membership: rounding band |Q-1| <= 1e-9 (1 + r^2 (1/a^2+1/b^2)) "
+    "+ 1e3 x the effect of the rounding of the coordinate differences "
+    "(Q = (xi/a)^2+(eta/b)^2, r = distance from the centre); coordinates "
+    "inside the band are not compared",
+    "extract_1d documents 'volume-averages' without naming the mean: the "
+    "imat-weighted arithmetic, geometric or harmonic mean of the stored "
+    "values (for log mappings also of the values on the linear scale) is "
+    "accepted, the same one in all layers, to 1e-10 of the largest selected "
+    "value of the layer",
+    "with exactly one interface empymod cannot infer the direction of the "
+    "z-axis from `depth`; the reference then adds a second interface above "
+    "the grid between two copies of the top layer",
+    "negative (Laplace) frequencies are not generated: neither Survey nor "
+    "the layered mode documents them (only Field / get_source_field do)",
     "gradient: emg3d uses a forward difference with 1e-4 relative step in "
     "conductivity, so agreement with the central difference is first order; "
     "tolerance 1e-2*max_k|FD_k| per component (+1e-9|phi|/h rounding floor); "
     "cases where the checker's own estimate of the truncation term "
-    "(|phi''| dp/2) or of the numerical noise of the misfit divided by the "
-    "implementation's step exceeds a quarter of that tolerance, or whose "
-    "responses underflow (<1e-100), are inconclusive",
+    "(|phi''| dp/2) exceeds a quarter of that tolerance, or whose estimate of "
+    "the numerical noise of the misfit (six 1e-11 perturbations) divided by "
+    "the implementation's step exceeds a tenth of it, or whose responses "
+    "underflow (<1e-100), are inconclusive",
 ]
 SHARDS = {'quick': 1, 'thorough': 16}
 
@@ -261,6 +295,16 @@ def emp(esrc, msrc, moment, erec, mrec, freqs, lay, nodes_z):
     (strength=0), scaled by the moment here; layers are passed top-down."""
     import empymod
     sh, sv, mur, epsr = lay
+    nodes_z = np.asarray(nodes_z, float)
+    if nodes_z.size == 3:
+        # One interface: empymod cannot read the orientation of the z-axis
+        # off a single depth (it then assumes z positive downwards).  The
+        # top layer is split by a second interface one grid extent above
+        # the grid (away from all sources and receivers), so that the
+        # top-down (decreasing depth) description stays unambiguous.
+        nodes_z = np.r_[nodes_z, 2*nodes_z[-1]-nodes_z[0]]
+        sh, sv, mur, epsr = [None if v is None else np.r_[v, v[-1]]
+                             for v in (sh, sv, mur, epsr)]
     inp = {
         'src': [float(v) for v in esrc],
         'rec': [float(v) for v in erec],
@@ -308,6 +352,24 @@ def tensor_scale(s, r, i, freqs, lay, nodes_z):
     return np.sqrt(sc)
 
 
+def missing_values(os_, shape):
+    """Entries that stand for 'no observation': nan+nanj, or (spec key
+    nonfinite='mixed') a random one of nan+nanj, nan+xj, x+nanj, inf+0j,
+    x-infj (none of them is finite)."""
+    out = np.full(shape, np.nan+1j*np.nan)
+    if os_.get('nonfinite', 'nan') == 'mixed':
+        rng = gen.rng_of(os_['seed'], 401)
+        kind = rng.integers(0, 5, shape)
+        x = rng.standard_normal(shape)*1e-9
+        out.real[kind == 2] = x[kind == 2]
+        out.real[kind == 3] = np.inf
+        out.real[kind == 4] = x[kind == 4]
+        out.imag[kind == 1] = x[kind == 1]
+        out.imag[kind == 3] = 0.0
+        out.imag[kind == 4] = -np.inf
+    return out
+
+
 def observed_data(os_, shape):
     """-> (data array or None, mask of entries that have to be computed)."""
     rng = gen.rng_of(os_['seed'], 400)
@@ -318,7 +380,7 @@ def observed_data(os_, shape):
     if mode == 'full':
         return data, np.ones(shape, bool)
     if mode == 'allnan':
-        return np.full(shape, np.nan+1j*np.nan), np.ones(shape, bool)
+        return missing_values(os_, shape), np.ones(shape, bool)
     fin = rng.random(shape) < 0.6
     # whole rows / whole sources missing are frequent in practice
     if rng.random() < 0.5:
@@ -329,12 +391,14 @@ def observed_data(os_, shape):
         fin[:, :, rng.integers(0, shape[2])] = False
     if not fin.any():
         fin[0, 0, 0] = True
-    data = np.where(fin, data, np.nan+1j*np.nan)
+    data = np.where(fin, data, missing_values(os_, shape))
     return data, fin
 
 
 def layered_opts(ms, scale):
     lo = {'method': ms['method']}
+    if not ms.get('method_given', True):
+        del lo['method']        # documented default: 'cylinder'
     if ms['merge'] is not None:
         lo['merge'] = ms['merge']
     if ms['method'] in ('prism', 'cylinder'):
@@ -353,17 +417,111 @@ def layered_opts(ms, scale):
 
 
 def run_simulation(sources, receivers, freqs, data, model, lo, gridding='same',
-                   **skw):
+                   history='fresh', **skw):
+    """history: 'fresh' - Simulation(layered=True); 'setter' - built as a 3D
+    simulation, then `sim.layered = True` (what the CLI does); 'dict' -
+    Simulation.from_dict(sim.to_dict()) of a fresh one."""
     import emg3d
     with quiet():
         survey = emg3d.Survey([s[0] for s in sources],
                               [r[0] for r in receivers], freqs,
                               data=None if data is None else data.copy(),
                               **skw)
-        sim = emg3d.Simulation(survey, model, layered=True, layered_opts=lo,
-                               max_workers=1, tqdm_opts=False,
-                               gridding=gridding)
+        sim = emg3d.Simulation(survey, model, layered=history != 'setter',
+                               layered_opts=lo, max_workers=1,
+                               tqdm_opts=False, gridding=gridding)
+        if history == 'setter':
+            sim.layered = True
+        elif history == 'dict':
+            sim = emg3d.Simulation.from_dict(sim.to_dict())
     return sim
+
+
+def check_options(sim, ms, lo, scale, lay, freqs):
+    """Documented defaults (Simulation docstring, `layered_opts`): method
+    'cylinder'; for cylinder and prism factor 1.2, minor 0.8, radius one
+    skin depth for the lowest frequency and the minimum conductivity of the
+    lowest layer.  Given options are kept."""
+    if sim.layered is not True:
+        raise Violation("layered_flag", f"sim.layered is {sim.layered!r}")
+    got = sim.layered_opts
+    if got.get('method') != ms['method']:
+        given = ms.get('method_given', True)
+        raise Violation(
+            f"layered_opts_{'given' if given else 'default'}:method",
+            f"layered_opts={lo} gives method {got.get('method')!r}, "
+            f"expected {ms['method']!r} "
+            f"({'as given' if given else 'documented default'})")
+    if ms['method'] not in ('prism', 'cylinder'):
+        return
+    ell = got.get('ellipse', {})
+    skin = 1/np.sqrt(np.pi*min(freqs)*gen.mu_0*lay[0][0])
+    exp = {'factor': 1.2 if ms['factor'] is None else ms['factor'],
+           'minor': 0.8 if ms['minor'] is None else ms['minor'],
+           'radius': skin if ms['radius'] is None else ms['radius']*scale}
+    for k, v in exp.items():
+        g = ell.get(k)
+        if g is None or not abs(g-v) <= 1e-9*abs(v):
+            given = ms[k] is not None
+            raise Violation(
+                f"layered_opts_{'given' if given else 'default'}:{k}",
+                f"layered_opts={lo}: ellipse[{k!r}]={g!r}, expected {v!r} "
+                f"({'as given' if given else 'documented default'}; lowest "
+                f"frequency {min(freqs)} Hz, lowest layer {lay[0][0]} S/m)")
+
+
+def ellipse_ref(X, Y, p0, p1, radius, factor=1.0, minor=1.0,
+                check_foci=True):
+    """Documented ellipse of maps.ellipse_indices, evaluated in the rotated
+    frame (centre = midpoint, major axis through p0, p1; a = max(f c, c+r),
+    b = max(m a, r) and, with check_foci, b >= sqrt(a^2-c^2)).
+
+    -> (Q, border, a, b, c): membership is Q <= 1; `border` flags the points
+    whose membership is within rounding of the boundary.  The band is
+    1e-9 relative to the size of the terms of the implementation's quadratic
+    form (which cancel for slender ellipses) plus 1e3 times the effect of the
+    rounding of the coordinate differences."""
+    p0, p1 = np.asarray(p0, float), np.asarray(p1, float)
+    c = float(np.linalg.norm(p1-p0)/2)
+    a = max(factor*c, c+radius)
+    b = max(minor*a, radius)
+    if check_foci:
+        b = max(b, float(np.sqrt(max(a*a-c*c, 0.0))))
+    cen = (p0+p1)/2
+    u = (p1-p0)/(2*c) if c > 0 else np.array([1.0, 0.0])
+    Xc, Yc = X-cen[0], Y-cen[1]
+    xi = Xc*u[0]+Yc*u[1]
+    eta = -Xc*u[1]+Yc*u[0]
+    Q = (xi/a)**2+(eta/b)**2
+    w = 1/a**2+1/b**2
+    r = np.hypot(Xc, Yc)
+    big = max(float(np.max(np.abs(X), initial=0.0)),
+              float(np.max(np.abs(Y), initial=0.0)),
+              float(np.max(np.abs(p0))), float(np.max(np.abs(p1))))
+    delta = 4*np.finfo(float).eps*big
+    border = np.abs(Q-1) <= 1e-9*(1+r*r*w) + 1e3*(2*r*delta+delta**2)*w
+    return Q, border, a, b, c
+
+
+def weighted_means(imat, v3, mapname, mapped=True):
+    """imat-weighted means of v3 (nx, ny, nz) over the first two axes."""
+    w = imat[:, :, None]
+    use = (imat > 0)[:, :, None]
+    out = {'arithmetic': np.sum(w*v3, axis=(0, 1))}
+    with np.errstate(all='ignore'):
+        if np.all(v3[imat > 0] > 0):
+            out['geometric'] = 10.0**np.sum(
+                w*np.log10(np.where(use, v3, 1.0)), axis=(0, 1))
+            out['harmonic'] = 1.0/np.sum(w/np.where(use, v3, 1.0),
+                                         axis=(0, 1))
+        if mapped and mapname.startswith('L'):
+            b = 10.0 if mapname.startswith('Lg') else np.e
+            lin = b**np.where(use, v3, 0.0)
+            out['arithmetic_of_linear'] = np.log(np.sum(
+                w*lin, axis=(0, 1)))/np.log(b)
+            out['harmonic_of_linear'] = -np.log(np.sum(
+                w/lin, axis=(0, 1)))/np.log(b)
+    return {k: v for k, v in out.items() if np.all(np.isfinite(v))}
 
 
 def first_layer_minus_one(model):
@@ -383,6 +541,9 @@ def method_spec(method, merge=(None, False, True, True)):
         'factor': opt(st.floats(0.5, 3.0)),
         'minor': opt(st.floats(0.05, 1.5)),
         'check_foci': st.sampled_from([None, True, False]),
+        # 'method' left out of layered_opts (documented default: cylinder)
+        'method_given': st.sampled_from([True, True, False]) if
+        method == 'cylinder' else st.just(True),
     })
 
 
@@ -418,8 +579,12 @@ def rec_spec():
     })
 
 
-GRID = gen.grid_spec([[5, 6, 7, 8, 9], [4, 5, 6, 7], [5, 6, 7, 8, 9]],
+# small counts: a single column of cells (the natural input of a layered
+# computation), a full space (nz=1), one interface (nz=2)
+GRID = gen.grid_spec([[5, 6, 7, 8, 9, 1, 2], [4, 5, 6, 7, 1, 2],
+                      [5, 6, 7, 8, 9, 5, 6, 7, 8, 9, 2, 3, 2, 1]],
                      kinds=('stretch', 'stretch', 'random', 'uniform'))
+HISTORY = ['fresh', 'fresh', 'setter', 'dict', 'twice']
 
 
 # induction number omega mu0 sigma h^2 (h: cell scale): static ... inductive
@@ -446,14 +611,21 @@ def forward_strategy():
         'obs': st.fixed_dictionaries({
             'mode': st.sampled_from(['none', 'full', 'gaps', 'gaps',
                                      'allnan']),
+            'nonfinite': st.sampled_from(['mixed', 'nan', 'mixed']),
             'seed': gen.SEED}),
         'methods': st.tuples(*[method_spec(m) for m in METHODS]).map(list),
         'gridding': st.just('same'),
+        'history': st.sampled_from(HISTORY),
+        # nx = ny = 1
+        'column': st.sampled_from([False]*6+[True]),
     })
 
 
 def setup_problem(spec):
-    grid = gen.build_grid(spec['grid'])
+    gs = spec['grid']
+    if spec.get('column', False):
+        gs = dict(gs, n=[1, 1, gs['n'][2]])
+    grid = gen.build_grid(gs)
     scale = spec['grid']['scale']
     fs = spec['freq']
     bg = float(np.clip(gen.bg_cond(fs, scale), 1e-5, 1e3))
@@ -488,8 +660,14 @@ def noise_level(s, r, i, freqs, lay, nodes_z, ref_ij):
         eps = 10.0**rng.uniform(-15, -12)
         sh2 = sh*(1+eps*rng.choice([-1, 1], sh.size))
         sv2 = None if sv is None else sv*(1+eps*rng.choice([-1, 1], sh.size))
+        # (extract_1d sends mu_r / epsilon_r through 10**(sum w log10) under
+        # the linear mappings: one-ulp changes there as well)
+        mur2 = None if mur is None else \
+            mur*(1+eps*rng.choice([-1, 1], sh.size))
+        epsr2 = None if epsr is None else \
+            epsr*(1+eps*rng.choice([-1, 1], sh.size))
         v = emp(s['esrc'], s['mag'], s['moment'], rec5(r, r['abs'][i]),
-                r['mag'], freqs, (sh2, sv2, mur, epsr), nodes_z)
+                r['mag'], freqs, (sh2, sv2, mur2, epsr2), nodes_z)
         n = np.maximum(n, np.abs(v-ref_ij))
     # the relative noise level of the pair applies to all its frequencies
     with np.errstate(invalid='ignore', divide='ignore'):
@@ -549,14 +727,19 @@ def case_forward(spec, rec):
     has23 = any(s[1]['type'].endswith('23') for s in sources)
     flm1 = first_layer_minus_one(model)
 
+    history = spec.get('history', 'fresh')
     results = {}
     for ms in spec['methods']:
         lo = layered_opts(ms, scale)
         sim = run_simulation(sources, receivers, freqs, data, model, lo,
-                             spec['gridding'])
+                             spec['gridding'],
+                             'fresh' if history == 'twice' else history)
+        check_options(sim, ms, lo, scale, lay, freqs)
         try:
             with quiet():
                 sim.compute()
+                if history == 'twice':
+                    sim.compute()
         except ValueError as e:
             if has23 and 'wrong length' in str(e):
                 raise Violation(
@@ -569,19 +752,26 @@ def case_forward(spec, rec):
 
     # ---- NaN pattern -------------------------------------------------
     pending = []
+    filled = False
     for m, (got, lo, ms) in results.items():
         if got.shape != shape:
             raise Violation("synthetic_shape", f"{got.shape} vs {shape}")
-        nanpat = np.isnan(got.real) | np.isnan(got.imag)
-        if not np.array_equal(nanpat, ~mask):
+        # the statement demands a response wherever the observation is
+        # finite (everywhere if there is none); entries without observation
+        # are NaN on this tree, which is recorded but not demanded
+        nanpat = ~np.isfinite(got)
+        if np.any(nanpat & mask):
             extra = int((nanpat & mask).sum())
             miss = int((~nanpat & ~mask).sum())
             raise Violation(
                 f"nan_pattern:obs={spec['obs']['mode']}",
                 f"method {m}: {extra} entries with finite observation are "
-                f"NaN, {miss} entries without observation were computed; "
-                f"expected mask {mask.astype(int).tolist()}, got NaN at "
-                f"{nanpat.astype(int).tolist()}")
+                f"not finite ({miss} entries without observation were "
+                f"computed); expected mask {mask.astype(int).tolist()}, got "
+                f"non-finite at {nanpat.astype(int).tolist()}; observed "
+                f"data {None if data is None else data.tolist()}")
+        if np.any(~nanpat & ~mask):
+            filled = True
 
     # ---- values against the direct empymod call -----------------------
     stats, cache = {}, {}
@@ -637,6 +827,10 @@ def case_forward(spec, rec):
             f"epsr={spec['layers']['epsr']}", f"obs={spec['obs']['mode']}",
             f"widths={spec['grid']['kind']}", regime(spec['freq']),
             f"nfreq={len(freqs)}", f"gridding={spec['gridding']}",
+            f"history={history}",
+            f"nz={grid.shape_cells[2] if grid.shape_cells[2] < 4 else '4+'}",
+            f"nx*ny={'1' if grid.shape_cells[0]*grid.shape_cells[1] == 1 else '2+'}",
+            f"entries_without_observation_computed={filled}",
             f"underflow={bool(comp.size and comp.max() <= 1e-200)}",
             f"distinct_layers={min(np.unique(sh).size, 3)}{'+' if np.unique(sh).size >= 3 else ''}",
             f"entries_within_null_tolerance={stats.get('null', 0) > 0}",
@@ -645,9 +839,15 @@ def case_forward(spec, rec):
         rec.cls(f"src={s[1]['type']}")
     for r in receivers:
         rec.cls(f"rec={r[1]['type']}{'-rel' if r[1]['relative'] else '-abs'}")
+    if spec['obs']['mode'] in ('gaps', 'allnan'):
+        rec.cls(f"missing_obs_as={spec['obs'].get('nonfinite', 'nan')}")
     for ms in spec['methods']:
         if ms['method'] in ('prism', 'cylinder'):
-            rec.cls(f"radius_default={ms['radius'] is None}")
+            rec.cls(f"radius_default={ms['radius'] is None}",
+                    f"factor_default={ms['factor'] is None}",
+                    f"minor_default={ms['minor'] is None}")
+        if ms['method'] == 'cylinder':
+            rec.cls(f"method_default={not ms.get('method_given', True)}")
         rec.cls(f"merge={ms['merge']}")
     if nontriv:
         rec.nt([list(grid.shape_cells), spec['grid']['seed'],
@@ -798,6 +998,25 @@ def case_extract(spec, rec):
     if method != 'midpoint':
         use = emg3d.maps.ellipse_indices(
             (grid.cell_centers_x, grid.cell_centers_y), p0=q0, p1=q1, **ell)
+        # the documented ellipse, evaluated by the checker; wherever no cell
+        # centre is within rounding of the boundary the expected selection
+        # does not depend on emg3d at all
+        Xc, Yc = np.meshgrid(grid.cell_centers_x, grid.cell_centers_y,
+                             indexing='ij')
+        Q, border, ea, eb, ec = ellipse_ref(
+            Xc, Yc, q0, q1, ell['radius'], ell.get('factor', 1.0),
+            ell.get('minor', 1.0), ell.get('check_foci', True))
+        wrong = (use != (Q <= 1)) & ~border
+        if np.any(wrong):
+            i = tuple(int(v[0]) for v in np.nonzero(wrong))
+            raise Violation(
+                "ellipse_membership:cell_centres",
+                f"cell centre ({Xc[i]}, {Yc[i]}) has (xi/a)^2+(eta/b)^2="
+                f"{Q[i]} (a={ea}, b={eb}, c={ec}) but ellipse_indices says "
+                f"{bool(use[i])}; {desc}")
+        own_sel = not border.any()
+        if own_sel:
+            use = Q <= 1
         if use.any():
             sel = method
             if method == 'prism':
@@ -827,6 +1046,16 @@ def case_extract(spec, rec):
                     f"selected cell [{nodes[ii]}, {nodes[ii+1]}] along "
                     f"{'xy'[ax]} does not contain the midpoint {mid[ax]} "
                     f"(clipped to the grid); {desc}")
+            # documented: "The x- and y-width of the returned model
+            # corresponds to the selected cell."
+            wout = float(oned.grid.h[ax][0])
+            if oned.grid.h[ax].size != 1 or abs(wout-grid.h[ax][ii]) > \
+                    1e-9*grid.h[ax][ii]:
+                raise Violation(
+                    "extract_width:midpoint",
+                    f"{'xy'[ax]}-width of the returned model {wout} is not "
+                    f"the width {grid.h[ax][ii]} of the selected cell; "
+                    f"{desc}")
 
     # --- extracted model ------------------------------------------------
     if oned.grid.shape_cells != (1, 1, nz):
@@ -838,6 +1067,7 @@ def case_extract(spec, rec):
         raise Violation("extract_nodes", "z-nodes changed without merge")
     supp = imat > 0
     vals = {}
+    averaged = set()
     for p in model._properties:
         v3 = getattr(model, p)
         v1 = getattr(oned, p)
@@ -856,6 +1086,29 @@ def case_extract(spec, rec):
                 f"extract_range:{method}:{model.map.name}",
                 f"{p} layer {k}: {v1[k]!r} outside [{lo[k]!r}, {hi[k]!r}] of "
                 f"the selected cells; {desc}")
+        # documented: "volume-averages the values of each layer" with the
+        # weights imat.  Which mean is not documented (the code averages
+        # log10 of the values under the linear mappings): any of the
+        # imat-weighted arithmetic / geometric / harmonic means of the stored
+        # values, or of the values mapped to the linear scale (log
+        # mappings), is accepted - but it has to be the same one in all
+        # layers, and the weights have to be imat.
+        cands = weighted_means(imat, v3, model.map.name,
+                               p.startswith('property'))
+        scale_k = np.maximum(np.abs(lo), np.abs(hi))
+        okc = [n for n, cv in cands.items()
+               if np.all(np.abs(cv-v1) <= 1e-10*scale_k+1e-300)]
+        if not okc:
+            best = min(cands, key=lambda n: np.max(np.abs(cands[n]-v1)))
+            k = int(np.argmax(np.abs(cands[best]-v1)))
+            raise Violation(
+                f"extract_average:{sel}:{model.map.name}",
+                f"{p}: extracted {v1.tolist()} is none of the imat-weighted "
+                f"means {list(cands)} of the selected cells; closest is the "
+                f"{best} mean {cands[best].tolist()} (layer {k}: {v1[k]!r} "
+                f"vs {cands[best][k]!r}); {desc}")
+        if np.any(hi-lo > 1e-9*scale_k):
+            averaged.update(okc if len(okc) < len(cands) else ['any'])
 
     # --- merge ------------------------------------------------------------
     flm1 = all(v[0] == -1.0 for v in vals.values())
@@ -901,6 +1154,11 @@ def case_extract(spec, rec):
             f"p1={spec['p1']}", f"palette={spec['palette']}",
             f"first_layer_minus_one={flm1}",
             f"first_layer_minus_one&merge={flm1 and spec['merge']}")
+    if method != 'midpoint':
+        rec.cls(f"selection_by_checker={own_sel}")
+    # layers in which the selected cells differ: which mean reproduces them
+    rec.cls("averaged_distinct_values=" +
+            ('none' if not averaged else '+'.join(sorted(averaged))))
     if merged is not None:
         rec.cls(f"merged_layers={'fewer' if merged.grid.shape_cells[2] < nz else 'same'}")
     if supp.sum() > 1 or (spec['merge'] and merged.grid.shape_cells[2] < nz):
@@ -969,22 +1227,23 @@ def case_ellipse(spec, rec):
     if ind.shape != X.shape or ind.dtype != bool:
         raise Violation("ellipse_shape", f"{ind.shape} {ind.dtype}; {desc}")
 
-    # documented geometry (independent evaluation, used for tolerance band
-    # and for the guaranteed-inside radius)
+    # documented geometry (independent evaluation)
     factor = kw.get('factor', 1.0)
     minor = kw.get('minor', 1.0)
     foci = kw.get('check_foci', True)
-    c = np.linalg.norm(p1-p0)/2
-    a = max(factor*c, c+radius)
-    b = max(minor*a, radius)
-    if foci:
-        b = max(b, np.sqrt(abs(a*a-c*c)))
-    cen = (p0+p1)/2
-    u = (p1-p0)/(2*c) if c > 0 else np.array([1.0, 0.0])
-    xi = (X-cen[0])*u[0]+(Y-cen[1])*u[1]
-    eta = -(X-cen[0])*u[1]+(Y-cen[1])*u[0]
-    Q = (xi/a)**2+(eta/b)**2
-    border = np.abs(Q-1) < 1e-9
+    Q, border, a, b, c = ellipse_ref(X, Y, p0, p1, radius, factor, minor,
+                                     foci)
+    # exact membership away from the border
+    exp = Q <= 1
+    wrong = (ind != exp) & ~border
+    if np.any(wrong):
+        i = tuple(int(v[0]) for v in np.nonzero(wrong))
+        raise Violation(
+            f"ellipse_membership:check_foci={foci}",
+            f"{int(wrong.sum())} of {ind.size} coordinates are on the wrong "
+            f"side of the documented ellipse (a={a}, b={b}, c={c}); e.g. "
+            f"({X[i]}, {Y[i]}): (xi/a)^2+(eta/b)^2={Q[i]} but flagged "
+            f"{bool(ind[i])}; {desc}")
 
     # symmetry under exchanging the points
     ind2 = maps.ellipse_indices(coo, p1, p0, **kw)
@@ -1018,7 +1277,17 @@ def case_ellipse(spec, rec):
             f"coordinate ({X[i]}, {Y[i]}) is within {rho} of p0/p1 but not "
             f"flagged; a={a} b={b} c={c}; {desc}")
     nn = sum(bool(near[i]) for i in nearest)
+    # which term of the documented formulas decides the axes
+    a_by = 'factor*c' if factor*c > c+radius else 'c+radius'
+    b_terms = {'minor*a': minor*a, 'radius': radius}
+    if foci:
+        b_terms['foci'] = float(np.sqrt(max(a*a-c*c, 0.0)))
+    b_by = max(b_terms, key=b_terms.get)
     rec.cls(f"coo={spec['coo']}", f"geom={g}", f"check_foci={foci}",
+            f"major_axis_from={a_by}", f"minor_axis_from={b_by}",
+            f"minor_axis_longer={b > a}",
+            f"points_within_20%_of_boundary={bool(np.any(np.abs(Q-1) < 0.2))}",
+            f"points_in_rounding_band={bool(border.any())}",
             f"nearest_cells_inside_circle={nn}",
             f"selected={'none' if not ind.any() else 'all' if ind.all() else 'some'}")
     if nn > 0 and not ind.all():
@@ -1030,9 +1299,10 @@ def case_ellipse(spec, rec):
 # ----------------------------------------------------------------- gradient
 def gradient_strategy():
     return st.fixed_dictionaries({
-        'grid': gen.grid_spec([[5, 6, 7], [4, 5], [5, 6, 7]],
+        'grid': gen.grid_spec([[5, 6, 7], [4, 5], [5, 6, 7, 5, 6, 7, 2, 3]],
                               kinds=('stretch', 'stretch', 'random',
                                      'uniform')),
+        'column': st.sampled_from([False]*5+[True]),
         'freq': st.fixed_dictionaries({
             'f': gen.lgfloat(1e-2, 1e3), 'laplace': st.just(False),
             'lgind': st.floats(-3, 0.5)}),
@@ -1049,7 +1319,10 @@ def gradient_strategy():
         'receivers': st.lists(rec_spec(), min_size=1, max_size=3),
         'sseed': gen.SEED,
         'obs': st.fixed_dictionaries({
-            'mode': st.sampled_from(['full', 'full', 'gaps', 'gaps', 'none']),
+            'mode': st.sampled_from(['full', 'full', 'gaps', 'gaps', 'none',
+                                     'full', 'gaps', 'gaps', 'full',
+                                     'allnan']),
+            'nonfinite': st.just('nan'),
             'seed': gen.SEED}),
         'method': st.sampled_from(METHODS).flatmap(
             lambda m: method_spec(m, (None, False, True, False, None))),
@@ -1090,8 +1363,11 @@ def case_gradient(spec, rec):
         # weights 1/std^2 would overflow
         raise Inconclusive("responses underflow")
     mode = spec['obs']['mode']
+    nodata = mode in ('none', 'allnan')
     if mode == 'none':
         data = None
+    elif mode == 'allnan':
+        data = missing_values(spec['obs'], shape)
     else:
         _, fin = observed_data(spec['obs'], shape)
         data = np.where(fin, obs, np.nan+1j*np.nan)
@@ -1131,7 +1407,8 @@ def case_gradient(spec, rec):
                 f"layers are actually merged: {e}; layers {sh.tolist()}")
         raise
     want = (2, *grid.shape_cells) if vti else tuple(grid.shape_cells)
-    if g.shape != want:
+    # (the returned array is squeezed: single-cell directions disappear)
+    if [n for n in g.shape if n != 1] != [n for n in want if n != 1]:
         raise Violation("gradient_shape", f"{g.shape} vs {want}")
     if not np.all(np.isfinite(g)):
         raise Violation("gradient_nonfinite", "NaN/inf in layered gradient")
@@ -1147,12 +1424,14 @@ def case_gradient(spec, rec):
         return np.full(p.size, 1e-3), np.full(p.size, 1e-4)
 
     # numerical noise of the misfit itself (filter sums of empymod; can reach
-    # 1e-6 relative with very resistive layers): largest change under three
-    # perturbations of all layers by 1e-11 relative in conductivity, i.e.
-    # seven decades below the implementation's step
+    # 1e-5 relative with very resistive layers or responses many skin depths
+    # away): largest change under six perturbations of all layers by 1e-11
+    # relative in conductivity, i.e. seven decades below the
+    # implementation's step.  (Three samples were seen to underestimate the
+    # noise five-fold: a 1.09e-2 discrepancy at an estimate of 2.3e-3.)
     nphi = 0.0
-    if mode != 'none':
-        for t in range(3):
+    if not nodata:
+        for t in range(6):
             r2 = gen.rng_of(4711+t, 9)
             qx = px0 + r2.choice([-1, 1], nz)*steps(px0)[1]*1e-7
             qz = None if pz0 is None else \
@@ -1177,7 +1456,7 @@ def case_gradient(spec, rec):
             FD[k] = (fp-fm)/(2*hk)
             D2[k] = (fp-2*phi0+fm)/hk**2
         ref = np.abs(FD).max()
-        if mode == 'none':
+        if nodata:
             if ref != 0 or np.any(G[ci] != 0) or phi0 != 0:
                 raise Violation("gradient_without_data",
                                 f"no observed data but gradient {G[ci]}, "
@@ -1194,7 +1473,7 @@ def case_gradient(spec, rec):
         if sensitive and trunc.max() > 2.5e-3*ref:
             raise Inconclusive("fd truncation of the implementation's "
                                "forward difference too large")
-        if sensitive and (2*nphi/dimpl).max() > 2.5e-3*ref:
+        if sensitive and (2*nphi/dimpl).max() > 1e-3*ref:
             raise Inconclusive("misfit numerically too noisy for a forward "
                                "difference with 1e-4 relative step")
         err = np.abs(G[ci]-FD)
@@ -1225,13 +1504,15 @@ def case_gradient(spec, rec):
             anysens = True
             rec.cls(f"relerr<{10.0**np.ceil(np.log10(max(err.max()/ref, 1e-9))):.0e}")
     rec.cls(f"mapping={mapping}", f"vti={vti}", f"obs={mode}",
-            f"method={lo['method']}", f"noise={spec['noise']}",
+            f"nz={nz if nz < 4 else '4+'}",
+            f"nx*ny={'1' if grid.shape_cells[0]*grid.shape_cells[1] == 1 else '2+'}",
+            f"method={spec['method']['method']}", f"noise={spec['noise']}",
             f"air={spec['layers']['air']}")
     for s in sources:
         rec.cls(f"src={s[1]['type']}")
     for r in receivers:
         rec.cls(f"rec={r[1]['type']}{'-rel' if r[1]['relative'] else '-abs'}")
-    if mode != 'none' and anysens:
+    if not nodata and anysens:
         rec.nt([list(grid.shape_cells), spec['grid']['seed'],
                 spec['layers']['seed'], spec['sseed'], spec['obs']['seed']])
     rec.note({'shape': list(grid.shape_cells), 'mapping': mapping,
